@@ -244,7 +244,9 @@ def create_formatted_exception(
         try:
             inst = BaseException.__new__(new)
         except TypeError:
-            inst = cls.__new__(new)
+            # The class has an allocator of its own, which may require
+            # the arguments (``ExceptionGroup``).
+            inst = cls.__new__(new, *exc.args)
 
         BaseException.__init__(inst, *exc.args)
         inst.__dict__ = exc.__dict__  # type: ignore[assignment]
